@@ -33,6 +33,10 @@ ENG_A = "simio"
 ENG_B = "simnet"
 
 CHECKS = {
+ "C34": dict(level="fault_enumeration", engine=ENG_A, design="DESIGN.md §4 C34",
+   technique="deterministic simulation with fault enumeration: each workload is executed fault-free for reference and then once per failing byte offset of the simulated writer/reader/transport (exhaustive for outputs <= 600 bytes, 128 sampled + boundaries above); oracle = Err, or Ok with output identical to the fault-free run inspected after all drops",
+   text="For generated data sets, files, PDUs and P-DATA messages the simulated sink or source fails at every byte offset (exhaustive for small outputs) with six I/O error kinds or a zero-length write, once or persistently. The public operation (write_dataset_with_ts(_options), write_all, write_dataset, write_meta incl. Deflated Explicit LE; read_dataset_with_ts, from_reader, FileMetaTable::from_reader; write_pdu, PDataWriter write/finish, read_pdu_from_wire, PDataReader) must return Err, or Ok with exactly the fault-free output/value; the sink is inspected only after every value is dropped so that bytes lost in Drop impls are seen. Two known findings (deflate stream finished in Drop) are listed in known_findings.jsonl.",
+   note="Interrupted and UnexpectedEof are deliberately not used as the injected failure. Association-level send/receive/release under socket failures belongs to the network-level checks. Path-based writers (write_to_file) are not fault-injected; their Write-based twin write_all carries the property."),
  "C06": dict(level="exploration", engine=ENG_A, design="DESIGN.md §4 C06",
    technique="deterministic simulation: the lazy reader and the collector are driven by seed-drawn API-call histories over a seekable simulated source (short reads, EINTR, first read from 1 byte up) and refined against the eager reader as reference model",
    text="Seeded search over generated conforming files (three uncompressed syntaxes, nested sequences with defined/undefined lengths, native or encapsulated pixel data with empty/non-empty offset tables and zero-length fragments) x API-call histories x read segmentations. Lazy token stream (values fetched or skipped) must equal the eager token stream; the collector's meta group, union of portions split at arbitrary (present/absent) tags, separately read offset table and one-by-one fragments must equal the eagerly read object; read_until/read_to must give exactly the elements below / up to the tag.",
